@@ -75,6 +75,15 @@ def apply_clauses(src, clauses):
     rewrites first (they are literal), then everything else computed on one lex and applied
     back-to-front."""
     for c in clauses:
+        if c["op"] == "rename":
+            # alpha-renaming of an identifier that collides with a Verus keyword (token level)
+            tk = lex(src)
+            eds = [(t.start, t.end, c["new"]) for t in tk if t.kind == "ident" and t.text == c["old"]]
+            if not eds:
+                raise LostAnchor(f"rename: identifier {c['old']} not found")
+            for s0, e0, r0 in sorted(eds, key=lambda x: -x[0]):
+                src = src[:s0] + r0 + src[e0:]
+    for c in clauses:
         if c["op"] == "replace_range":
             a, b = c["start"], c["stop"]
             if src.count(a) != 1 or src.count(b) != 1:
@@ -92,7 +101,7 @@ def apply_clauses(src, clauses):
             src = src.replace(c["old"], c["new"])
     toks = lex(src)
     edits = []
-    if all(c["op"] in ("rewrite", "replace_range", "before", "after", "tail", "after_stmt") for c in clauses):
+    if all(c["op"] in ("rewrite", "replace_range", "rename", "before", "after", "tail", "after_stmt") for c in clauses):
         fnk, body = -1, -1
     else:
         fnk, body = _fn_parts(src, toks)
@@ -103,7 +112,7 @@ def apply_clauses(src, clauses):
         loops, closures = [], []
     for c in clauses:
         op = c["op"]
-        if op in ("rewrite", "replace_range"):
+        if op in ("rewrite", "replace_range", "rename"):
             continue
         if op == "sig":
             pos = toks[body].start if body >= 0 else toks[-1].start
